@@ -497,8 +497,8 @@ def run(ctx, thorough):
     kinds = {}
     try:
         run_corpus(ctx, work)
-        for i in range(nlib):
-            spec = cxxgen.gen_spec(r, "og%d" % i, rich=True)
+        for i in range(nlib + 1):
+            spec = cxxgen.fixed_spec() if i == 0 else cxxgen.gen_spec(r, "og%d" % i, rich=True)
             d = os.path.join(work, "o%d" % i)
             os.makedirs(d)
             y = shroudrun.write_yaml(d, spec.name + ".yaml", spec.yaml())
